@@ -8,6 +8,7 @@ from ..gen import schemas
 from ..gen import steps as gs
 from ..gen.docs import docgen
 from ..ref import plain as P
+from ..ref import splice as S
 from ..ref import validate as V
 from ..ref.stepmap import RefMap
 
@@ -143,6 +144,14 @@ def undo_check(ctx: Ctx, lib, rs, steps: list, docs: list, final, initial_p: dic
     """docs[i] is the document steps[i] applied to; final = result of the last step."""
     n = len(steps)
     cur = final
+    for i in range(n):
+        # a step boundary between the two halves of a surrogate pair is no position of the document in this port
+        # (a Python str cannot hold half a character): such hand-made steps are outside the domain
+        d_ = gs.describe_step(steps[i])
+        T_ = P.tokens_of(P.plain(docs[i])["c"], rs.leaf_types)
+        if any(S.splits_pair_at(T_, d_[f]) for f in ("from", "to", "gapFrom", "gapTo") if f in d_ and 0 <= d_[f] <= len(T_)):
+            ctx.label("skipped:step-boundary-inside-surrogate-pair")
+            return
     for i in range(n - 1, -1, -1):
         inv = call("invert", steps[i].invert, docs[i])
         if not inv.ok:
